@@ -44,6 +44,8 @@ def mutants(prog):
         ("quat diag", K, "quaternion_to_rotation_matrix", "one - (txx + tzz),", "one - (txx + tyy),", "T7.quat-to-matrix"),
         ("mat->quat branch", K, "rotation_matrix_to_quaternion", "qy = safe_zero_division(m01 + m10, sq)\n        qz = safe_zero_division(m02 + m20, sq)", "qy = safe_zero_division(m01 - m10, sq)\n        qz = safe_zero_division(m02 + m20, sq)", "T7.matrix-to-quat"),
         ("mat->quat trace", K, "rotation_matrix_to_quaternion", "qx = safe_zero_division(m21 - m12, sq)\n        qy = safe_zero_division(m02 - m20, sq)", "qx = safe_zero_division(m12 - m21, sq)\n        qy = safe_zero_division(m02 - m20, sq)", "T7.matrix-to-quat"),
+        ("scales: squashing tied to requires_grad", "deepali.spatial.linear", "AnisotropicScaling.scales", "if self.has_parameters():", "if params.requires_grad:", "T8.accessors"),
+        ("isotropic scales_: squashing tied to requires_grad", "deepali.spatial.linear", "IsotropicScaling.scales_", "if self.has_parameters():", "if self.data().requires_grad:", "T8.accessors"),
     ]
     for name, mod, fn, old, new, expect in specs:
         ov = source_sub(prog, mod, fn, old, new)
